@@ -93,6 +93,8 @@ func mkSigner(name string, key gmsl.KeyID, seed byte) signer {
 var (
 	signer1 = mkSigner(hs1, keyID, 1)
 	signer2 = mkSigner(hs2, "ed25519:k2", 2)
+	// a second key of the sender's server: two key IDs under one server name
+	signer1b = mkSigner(hs1, "ed25519:k1b", 4)
 	// pseudo-ID rooms: the sender is a key and signs under its own name with key ID ed25519:1
 	pseudoPriv   = ed25519.NewKeyFromSeed(bytes.Repeat([]byte{3}, ed25519.SeedSize))
 	pseudoSender = string(spec.SenderIDFromPseudoIDKey(pseudoPriv))
@@ -130,6 +132,19 @@ func realise(cls, k string) json.RawMessage {
 		return json.RawMessage(`[1,"<` + jsonInner(k) + `>",{"a":null},[]]`)
 	case "null":
 		return json.RawMessage(`null`)
+	// values an "omit when empty" treatment would lose
+	case "zero":
+		return json.RawMessage(`0`)
+	case "estr":
+		return json.RawMessage(`""`)
+	case "eobj":
+		return json.RawMessage(`{}`)
+	case "earr":
+		return json.RawMessage(`[]`)
+	case "false":
+		return json.RawMessage(`false`)
+	case "iexp": // the integer 100, spelt with an exponent
+		return json.RawMessage(`1E2`)
 	}
 	panic("harness: unknown value class " + cls)
 }
@@ -181,8 +196,17 @@ func stdSigned() json.RawMessage {
 	return json.RawMessage(`{"mxid":"@bob:` + hs2 + `","token":"tok<&>","signatures":{"id.example.org":{"ed25519:0":"c2lnbmF0dXJl"}}}`)
 }
 
+// Spellings of the same JSON object (the abstract event, and therefore what redaction keeps, is the same):
+//
+//	0  compact, keys sorted
+//	1  keys in reverse order at every level, whitespace between all tokens
+//	2  the first character of every key written as a \uXXXX escape; strings of class esc use \/ and \u00e9
+const spellings = 3
+
 // contentJSON composes the content object of the abstract event.
-func contentJSON(r *rec) json.RawMessage {
+func contentJSON(r *rec) json.RawMessage { return contentSpelt(r, 0) }
+
+func contentSpelt(r *rec, sp int) json.RawMessage {
 	m := map[string]json.RawMessage{}
 	for k, cls := range r.Con {
 		if k == nestedKey && r.TpiObj {
@@ -191,51 +215,69 @@ func contentJSON(r *rec) json.RawMessage {
 				if ncls == "std" {
 					sub[nk] = stdSigned()
 				} else {
-					sub[nk] = realise(ncls, nk)
+					sub[nk] = realiseSpelt(ncls, nk, sp)
 				}
 			}
-			m[k] = marshalRawMap(sub)
+			m[k] = spellRawMap(sub, sp)
 			continue
 		}
-		m[k] = realise(cls, k)
+		m[k] = realiseSpelt(cls, k, sp)
 	}
-	return marshalRawMap(m)
+	return spellRawMap(m, sp)
+}
+
+func realiseSpelt(cls, k string, sp int) json.RawMessage {
+	if sp == 2 && cls == "esc" {
+		return json.RawMessage("\"" + jsonInner(k) + "<b>&c\u2028d\\/\\u00e9\"")
+	}
+	return realise(cls, k)
 }
 
 // marshalRawMap writes an object without re-escaping the raw values (keys sorted).
-func marshalRawMap(m map[string]json.RawMessage) json.RawMessage {
+func marshalRawMap(m map[string]json.RawMessage) json.RawMessage { return spellRawMap(m, 0) }
+
+func spellRawMap(m map[string]json.RawMessage, sp int) json.RawMessage {
 	keys := make([]string, 0, len(m))
 	for k := range m {
 		keys = append(keys, k)
 	}
 	sort.Strings(keys)
+	sep, colon, open, shut := ",", ":", "{", "}"
+	if sp == 1 {
+		sort.Sort(sort.Reverse(sort.StringSlice(keys)))
+		sep, colon, open, shut = " ,\n\t", " : ", "{ ", "\r\n}"
+	}
 	var b bytes.Buffer
-	b.WriteByte('{')
+	b.WriteString(open)
 	for i, k := range keys {
 		if i > 0 {
-			b.WriteByte(',')
+			b.WriteString(sep)
 		}
-		b.WriteString("\"" + jsonInner(k) + "\":")
+		name := jsonInner(k)
+		if rs := []rune(k); sp == 2 && len(rs) > 0 && rs[0] < 0x10000 {
+			name = fmt.Sprintf("\\u%04x", rs[0]) + jsonInner(string(rs[1:]))
+		}
+		b.WriteString("\"" + name + "\"" + colon)
 		b.Write(m[k])
 	}
-	b.WriteByte('}')
+	b.WriteString(shut)
 	return b.Bytes()
 }
 
-// rawEvent composes the JSON object of a raw-family scenario.
-func rawEvent(r *rec) []byte {
+// rawEvent composes the JSON object of a raw-family scenario in the given spelling.
+func rawEvent(r *rec, sp int) []byte {
 	m := map[string]json.RawMessage{}
 	for k, cls := range r.Top {
 		switch k {
 		case "type":
 			m[k] = json.RawMessage("\"" + jsonInner(concreteType(r.Type, cls)) + "\"")
 		case "content":
-			m[k] = contentJSON(r)
+			m[k] = contentSpelt(r, sp)
 		default:
-			m[k] = realise(cls, k)
+			m[k] = realiseSpelt(cls, k, sp)
 		}
 	}
-	return marshalRawMap(m)
+	return spellRawMap(m, sp)
 }
 
 // ---- well-formed PDUs -------------------------------------------------------------------------------
@@ -256,7 +298,7 @@ func signersFor(ver string) []signer {
 	if ver == "org.matrix.msc4014" {
 		return []signer{signerPseudo, signer2}
 	}
-	return []signer{signer1, signer2}
+	return []signer{signer1, signer2, signer1b}
 }
 
 // contentHash recomputes the `hashes` value of an event (content hash of the specification).
@@ -279,7 +321,7 @@ func contentHash(ev map[string]json.RawMessage) json.RawMessage {
 // then put in / taken out, the content hash is recomputed and the event is signed by both signers with
 // PDU.Sign (which signs the redacted form).  Returns the event JSON; its top-level key set is exactly
 // the scenario's.
-func pduEvent(r *rec) []byte {
+func pduEvent(r *rec) ([]byte, gmsl.PDU) {
 	ver := gmsl.MustGetRoomVersion(gmsl.RoomVersion(r.Ver))
 	typ := concreteType(r.Type, r.Top["type"])
 	pe := gmsl.ProtoEvent{
@@ -304,8 +346,15 @@ func pduEvent(r *rec) []byte {
 			pe.RoomID = room
 		}
 	}
+	now := fixedNow
+	if r.Top["depth"] == "zero" {
+		pe.Depth = 0
+	}
+	if r.Top["origin_server_ts"] == "zero" {
+		now = time.UnixMilli(0)
+	}
 	first := signersFor(r.Ver)[0]
-	built, err := ver.NewEventBuilderFromProtoEvent(&pe).Build(fixedNow, spec.ServerName(first.name), first.key, first.priv)
+	built, err := ver.NewEventBuilderFromProtoEvent(&pe).Build(now, spec.ServerName(first.name), first.key, first.priv)
 	if err != nil {
 		panic(fmt.Sprintf("harness: EventBuilder.Build: %v", err))
 	}
@@ -336,7 +385,7 @@ func pduEvent(r *rec) []byte {
 	for _, s := range signersFor(r.Ver) {
 		p = p.Sign(s.name, s.key, s.priv)
 	}
-	return p.JSON()
+	return p.JSON(), built
 }
 
 func valueOfTop(k, cls string) json.RawMessage {
@@ -357,7 +406,10 @@ func (v scriptedVerifier) VerifyJSONs(_ context.Context, reqs []gmsl.VerifyJSONR
 		out[i].Error = fmt.Errorf("no key known for %q", rq.ServerName)
 		for _, s := range v.signers {
 			if s.name == string(rq.ServerName) {
-				out[i].Error = gmsl.VerifyJSON(s.name, s.key, s.pub, rq.Message)
+				// as a key ring does: any key of the server that verifies is enough
+				if out[i].Error = gmsl.VerifyJSON(s.name, s.key, s.pub, rq.Message); out[i].Error == nil {
+					break
+				}
 			}
 		}
 	}
